@@ -448,6 +448,30 @@ func cmdCheck(args []string) {
 		}
 	}
 	sort.Strings(abs)
+	// mechanical scan: every assumption written into the contracts of the functions under contract
+	var contractAssumes []string
+	for _, f := range g.allFuncs {
+		if !funcs[g.fnKey(f)] {
+			continue
+		}
+		fc := g.ann.funcs[g.contractKey(f)]
+		if fc == nil {
+			continue
+		}
+		k := g.fnKey(f)
+		for _, a := range fc.assumes {
+			contractAssumes = append(contractAssumes, k+": assumes "+a.text)
+		}
+		for site, as := range fc.atAssume {
+			for _, a := range as {
+				contractAssumes = append(contractAssumes, k+": at "+site+" assume "+a.text)
+			}
+		}
+		if fc.trusted {
+			contractAssumes = append(contractAssumes, k+": trusted (contract assumed, body not checked)")
+		}
+	}
+	sort.Strings(contractAssumes)
 	ev := Evidence{PropertyID: id, Tier: *tier, Seed: seed, Level: "proof", WallS: wall, Violations: len(violations)}
 	ev.Coverage = map[string]interface{}{
 		"obligations":              obligations,
@@ -480,6 +504,9 @@ func cmdCheck(args []string) {
 		ev.Coverage["thorough_adequacy"] = adeq
 	}
 	ev.Assumptions = append(append([]string{}, globalTrusted...), pc.Assumptions...)
+	for _, a := range contractAssumes {
+		ev.Assumptions = append(ev.Assumptions, "contract clause (unchecked): "+a)
+	}
 	if broken {
 		// a broken check must not leave proof-level evidence behind
 		ev.Coverage["discharged"] = 0
